@@ -377,6 +377,8 @@ class PDFPageInterpreter:
     def __init__(self, rsrcmgr: PDFResourceManager, device: PDFDevice) -> None:
         self.rsrcmgr = rsrcmgr
         self.device = device
+        # object numbers of the form XObjects being rendered, outermost first
+        self.xobj_stack: List[Optional[int]] = []
 
     def dup(self) -> "PDFPageInterpreter":
         return self.__class__(self.rsrcmgr, self.device)
@@ -1193,7 +1195,11 @@ class PDFPageInterpreter:
         log.debug("Processing xobj: %r", xobj)
         subtype = xobj.get("Subtype")
         if subtype is LITERAL_FORM and "BBox" in xobj:
+            if xobj.objid is not None and xobj.objid in self.xobj_stack:
+                log.warning(f"Form {xobjid!r} invokes itself, not rendering it again")
+                return
             interpreter = self.dup()
+            interpreter.xobj_stack = self.xobj_stack + [xobj.objid]
             bbox = safe_rect_list([resolve1(v) for v in list_value(xobj["BBox"])])
             matrix_values = [
                 resolve1(v) for v in list_value(xobj.get("Matrix", MATRIX_IDENTITY))
